@@ -311,10 +311,18 @@ def check(repo: Repo, R) -> None:
     # ---- names never derive from addresses / salted hashes
     rule3 = "C12.3-names-independent-of-addresses"
     producers = [(F_BASE, "ElabPass.flatname"), (F_PARAMS, "_unique_name"), (F_PARAMS, "hdl21_naming_encoder"), (F_QUALNAME, "qualname"), (F_QUALNAME, "qualpath"),
-                 (F_SIMPROTO, "SimProtoExporter.next_analysis_name"), (F_FLATTEN, "FlattenedInstance.make_name")]
-    for rel, q in producers:
+                 (F_FLATTEN, "FlattenedInstance.make_name")]
+    # the simulation exporter's generated analysis names: whichever of its methods read the counter
+    gen = [(F_SIMPROTO, f_.qual) for f_ in repo.funcs_in(F_SIMPROTO) if "analysis_count" in ast.unparse(f_.node) and f_.name != "__init__"]
+    if not gen:
+        raise AnalysisError(f"anchor-vanished: no function of {F_SIMPROTO} reads the analysis counter")
+    for rel, q in producers + gen:
         f = repo.func(rel, q)
-        bad = [ast.unparse(c) for c in au.calls_in(f.node, nested=True) if (dotted(c.func) or "") in ("id", "hash", "pickle.dumps", "object.__repr__", "uuid.uuid4", "random.random", "time.time")]
+        scope = [f.node]
+        if (rel, q) in gen:
+            # the generated name itself: the `Analysis<..>` texts built in the function
+            scope = [n for n in ast.walk(f.node) if isinstance(n, ast.JoinedStr) and n.values and isinstance(n.values[0], ast.Constant) and str(n.values[0].value).startswith("Analysis")]
+        bad = [ast.unparse(c) for sc in scope for c in au.calls_in(sc, nested=True) if (dotted(c.func) or "") in ("id", "hash", "pickle.dumps", "object.__repr__", "uuid.uuid4", "random.random", "time.time")]
         R.check(not bad, rule3, key_of(f), f.site, f"{q}: no id()/hash()/pickle/uuid/random/time in the name producer" if not bad else f"{q} uses `{bad[0]}`", why="generated names differ between processes")
     # call sites of flatname: segments are names / small integers
     m = 0
